@@ -489,6 +489,16 @@ theorem step_cancelFound (st : St) (a : Nat) (w : Watch) (l : List Nat) (hl : l 
   · exact (((((g2_setListOf_ne st w.type _ ht).trans (g2_cancelNotify _ a w)).trans (g2_cancelHook _ _ _)).trans (g2_free _ a)).trans
       (g2_cancelRest _ _)).step
 
+theorem g2_cancelDetached (st : St) (a : Nat) : G2 st (cancelDetached st a) := by
+  unfold cancelDetached
+  exact (g2_cancelNotify st a _).trans (g2_setTypeNone _ a)
+
+theorem g2_laterPre (st : St) (a : Nat) : G2 st (laterPre st a) := by
+  unfold laterPre
+  split
+  · exact g2_setW _ a _ rfl rfl id
+  · exact G2.refl _
+
 theorem step_watchCancel (st : St) (a : Nat) : SigStep st (watchCancel st a) := by
   unfold watchCancel
   split
@@ -500,7 +510,9 @@ theorem step_watchCancel (st : St) (a : Nat) : SigStep st (watchCancel st a) := 
       · split
         · exact (g2_fail st _).step
         · split
-          · exact SigStep.refl st
+          · split
+            · exact (g2_cancelDetached st a).step
+            · exact SigStep.refl st
           · rename_i hc
             have : a ∈ listOf st (st.getW a).type := by
               simpa using hc
@@ -757,10 +769,12 @@ theorem step_laterLoopT (l : List Nat) : ∀ st : St, SigStep st (laterLoopT st 
     · split
       · exact (g2_fail _ _).step
       · split
-        · exact step_laterCb _ _
+        · exact (g2_free _ a).step.trans (ih _)
         · split
-          · exact (step_laterCb _ _).trans (g2_fail _ _).step
-          · exact ((step_laterCb _ _).trans (g2_free _ a).step).trans (ih _)
+          · exact (g2_laterPre st a).step.trans (step_laterCb _ a)
+          · split
+            · exact ((g2_laterPre st a).step.trans (step_laterCb _ a)).trans (g2_fail _ _).step
+            · exact (((g2_laterPre st a).step.trans (step_laterCb _ a)).trans (g2_free _ a).step).trans (ih _)
 
 theorem step_laterLoop (l : List Nat) (st : St) : SigStep st (laterLoop st l) := step_laterLoopT l st
 
